@@ -132,7 +132,9 @@ def expected_inbound(fields, normalize):
 # generation
 
 TOKENS = [b'x-a', b'accept', b'user-agent', b'content-type', b'x-trace', b'server', b'etag', b'date',
-          b'cookie', b'authorization', b'proxy-authorization', b'te', b'host', b'content-length-x']
+          b'cookie', b'authorization', b'proxy-authorization', b'te', b'host', b'content-length-x',
+          # legal field names without a single letter (RFC 7230 token characters)
+          b'42', b'_', b'1-2']
 VALUES = [b'v', b'text/html', b'abc=def', b'0123456789abcdefghijklmnop', b'', b'a b', b'trailers']
 
 
